@@ -46,5 +46,7 @@ RefrComplaints(ev) ==
         ELSE chk(~POk(ev.im) /\ FEq(PV(ev.im), Zero), "Refractive_Index_Im did not fail"))
   \cup (IF RefrDefined(ev) THEN chk(ev.cx[1] = 1 /\ FClose(ev.cx[2], PV(ev.re), Tol, Zero) /\ FClose(ev.cx[3], PV(ev.im), Tol, Zero), "complex refractive index disagrees with its real / imaginary entry points")
         ELSE chk(ev.cx[1] = 0 /\ FEq(ev.cx[2], Zero) /\ FEq(ev.cx[3], Zero), "Refractive_Index did not fail"))
+  \* the exported pointer-returning twin (called by the Fortran, .NET and scripting bindings) is the same function
+  \cup chk(ev.cx2 = ev.cx, "Refractive_Index2 disagrees with Refractive_Index")
 Complaints(ev) == UNION { CPComplaints(ev, n, ev.fn[n]) : n \in DOMAIN ev.fn } \cup RefrComplaints(ev)
 ==============================================================================
